@@ -15,6 +15,7 @@ oracle:  Python's own string semantics (str.count / rfind / split / encode) judg
 import itertools
 import json
 import os
+import time
 
 import vlib
 
@@ -97,9 +98,13 @@ class Oracle:
         self.known_ids = {f["id"] for f in chk.findings if f.get("status") == "known"}
         self.suppressed = {}
 
-    def fail(self, D, query, why, expected=None, actual=None):
-        self.fails.append({"doc": doc_str(D.doc), "text": D.s, "query": query, "build": self.build, "why": why,
-                           "expected": expected, "actual": actual})
+    def fail(self, D, query, why, expected=None, actual=None, then=None):
+        """query (and the optional follow-up `then`) are harness input lines: the replay re-runs them"""
+        f = {"doc": doc_str(D.doc), "text": D.s, "query": query, "build": self.build, "why": why,
+             "expected": expected, "actual": actual}
+        if then:
+            f["then"] = then
+        self.fails.append(f)
 
     def known(self, fid):
         if fid in self.known_ids:
@@ -141,10 +146,12 @@ class Oracle:
                 continue
             back = p2o_at(p)
             if back != o:
-                self.fail(D, "p2o(o2p(%d)) on %s" % (o, doc_str(D.doc)), "round trip offset -> position -> offset", o, back)
-            if prev is not None and not prev < p:
-                self.fail(D, "o2p %s at boundaries" % doc_str(D.doc), "positions not strictly increasing at offset %d" % o, ">" + str(prev), p)
-            prev = p
+                self.fail(D, "o2p %s %d" % (doc_str(D.doc), o), "round trip offset -> position -> offset: position_to_offset(%s) "
+                          "does not give the offset back" % (p,), o, back, then="p2o %s %d %d" % (doc_str(D.doc), p[0], p[1]))
+            if prev is not None and not prev[1] < p:
+                self.fail(D, "o2p %s %d" % (doc_str(D.doc), o), "positions not strictly increasing: boundary offset %d has %s"
+                          % prev, "> " + str(prev[1]), p, then="o2p %s %d" % (doc_str(D.doc), prev[0]))
+            prev = (o, p)
 
     def rng(self, D, a, b, got):
         q = "rng %s %d %d" % (doc_str(D.doc), a, b)
@@ -309,8 +316,9 @@ def q_line(doc, op, args):
 
 
 def q_coq(doc, op, args):
+    """doc: list of scalars, or the name of a Coq definition holding them"""
     ctor = {"o2p": "CO2p", "p2o": "CP2o", "rng": "CRng", "car": "CCar", "tab": "CTab", "hash": "CHash"}[op]
-    return "%s %s %s" % (ctor, doc_coq(doc), " ".join(vlib.zlit(a) for a in args))
+    return "%s %s %s" % (ctor, doc if isinstance(doc, str) else doc_coq(doc), " ".join(vlib.zlit(a) for a in args))
 
 
 def parse_ints(line):
@@ -349,7 +357,12 @@ def run(chk):
         "`character` is judged against UTF-16 units (LSP default encoding; the server negotiates no positionEncoding) in the oracle; "
         "the scalar-count reading is the one proved (C19_agrees_with_counting)",
     ]
+    t0 = time.time()
+
+    def lap(what):
+        vlib.log("[c19] %-28s %6.1fs" % (what, time.time() - t0))
     res = chk.proof_stage("C19", allow_axioms=())
+    lap("proof stage")
     dbg = vlib.build_harness("debug")
     rel = vlib.build_harness("release")
     rng = chk.rng
@@ -379,6 +392,7 @@ def run(chk):
     impl_tab = vlib.run_harness(dbg, ["run", "c19"], tab_in, timeout=3000).split("\n")[:len(tabs)]
     impl_sin = {"Trap": vlib.run_harness(dbg, ["run", "c19"], sin_in).split("\n")[:len(singles)],
                 "Wrap": vlib.run_harness(rel, ["run", "c19"], sin_in).split("\n")[:len(singles)]}
+    lap("implementation runs")
     if len(impl_tab) != len(tabs) or any(len(v) != len(singles) for v in impl_sin.values()):
         raise vlib.Infra("harness returned a wrong number of lines")
 
@@ -388,14 +402,21 @@ def run(chk):
     validated = 0
     if model_ok:
         hterms = [q_coq(d, "hash", (K,)) for d, K in tabs]
-        mh = vlib.coq_eval(REQ, "case", "run_case Trap", hterms, shard=max(50, len(hterms) // 16 + 1), tag="c19h")
-        sterms = [q_coq(D.doc, op, args) for D, op, args in singles]
-        ms = {m: vlib.coq_eval(REQ, "case", "run_case %s" % m, sterms, shard=max(50, len(sterms) // 8 + 1), tag="c19s" + m)
-              for m in ("Trap", "Wrap")}
+        mh = vlib.coq_eval(REQ, "case", "run_case Trap", hterms, shard=max(120, len(hterms) // 16 + 1), tag="c19h")
+        # single queries: every long document is defined once per shard, both modes in one evaluation
+        names, defs = {}, []
+        for D, _ in longs:
+            names[id(D)] = "doc_%d" % len(names)
+            defs.append("Definition %s : text := %s." % (names[id(D)], doc_coq(D.doc)))
+        sterms = [q_coq(names[id(D)], op, args) for D, op, args in singles]
+        both = vlib.coq_eval(REQ, "case", "fun c => (run_case Trap c, run_case Wrap c)", sterms,
+                             shard=max(400, len(sterms) // 8 + 1), tag="c19s", extra_defs="\n".join(defs))
+        ms = {"Trap": [list(b[0]) for b in both], "Wrap": [list(b[1]) for b in both]}
     else:
         res["tie_ok"] = False
         res["broken"].append({"what": "model", "message": "C19/Model.v no longer builds"})
 
+    lap("model runs (coqc)")
     # ---- judge tables
     orc = {"Trap": Oracle(chk, "debug"), "Wrap": Oracle(chk, "release")}
     dist = {"docs_by_scalars": {}, "single_ops": {}, "table_entries": 0}
@@ -406,7 +427,7 @@ def run(chk):
         t = decode_table(D, K, xs) if xs is not None else None
         dist["docs_by_scalars"][len(d)] = dist["docs_by_scalars"].get(len(d), 0) + 1
         if t is None:
-            orc["Trap"].fail(D, "tab " + doc_str(d), "table malformed: " + (note or impl_tab[i][:200]))
+            orc["Trap"].fail(D, q_line(d, "tab", (K,)), "table malformed: " + (note or impl_tab[i][:200]))
             chk.count_case(("tab", doc_str(d)), nontrivial=False)
             continue
         n = D.len + 2
@@ -429,6 +450,7 @@ def run(chk):
             corr_bad.append({"case": q_line(tabs[i][0], "tab", (tabs[i][1],)), "first_difference_at": k,
                              "model": mt[max(0, k - 4):k + 6], "impl": xs[max(0, k - 4):k + 6]})
 
+    lap("tables judged")
     # ---- judge single queries (both builds)
     for mode in ("Trap", "Wrap"):
         o = orc[mode]
@@ -475,6 +497,7 @@ def run(chk):
     for D, o2p_at, back in groups:
         orc["Trap"].roundtrip_monotone(D, o2p_at, lambda p, back=back: back.get(p))
 
+    lap("singles + round trips judged")
     # ---- known findings: replay the witnesses
     for f in chk.findings:
         if f.get("status") != "known":
@@ -518,20 +541,22 @@ def replay(path):
     rel = vlib.build_harness("release")
     for v in data["violations"]:
         d = v["detail"]
-        q = d.get("query", "")
-        if q.split(" ")[0] in ("o2p", "p2o", "rng", "car", "tab"):
+        qs = [q for q in (d.get("query"), d.get("then")) if q and q.split(" ")[0] in ("o2p", "p2o", "rng", "car", "tab")]
+        if not qs:
+            print(json.dumps(d, indent=1)[:3000])
+            continue
+        for q in qs:
             for name, b in (("debug  ", dbg), ("release", rel)):
-                print(name, "impl  ", q, "->", vlib.run_harness(b, ["run", "c19"], q + "\n").strip()[:400])
+                print(name, "impl  ", q[:200], "->", vlib.run_harness(b, ["run", "c19"], q + "\n").strip()[:400])
             p = q.split()
             doc = [] if p[1] == "-" else [int(x) for x in p[1].split(",")]
             args = [int(x) for x in p[2:]]
             for m in ("Trap", "Wrap"):
                 try:
                     r = vlib.coq_eval(REQ, "case", "run_case %s" % m, [q_coq(doc, p[0], args)], tag="c19r")[0]
-                    print("model  ", m, "->", str(r)[:400])
+                    print("model  ", m, "                       ->", str(r)[:400])
                 except vlib.Infra as e:
                     print("model  ", m, "unavailable:", str(e)[:200])
-            print("oracle  expected:", d.get("expected"), "| actual:", d.get("actual"), "|", d.get("why"))
-        else:
-            print(json.dumps(d, indent=1)[:3000])
+        print("oracle  expected:", d.get("expected"), "| actual:", d.get("actual"), "|", d.get("why"))
+        print()
     return 0
